@@ -120,4 +120,38 @@ mod verif_kani {
         };
         assert!(!c.compare(&l));
     }
+
+    // ---- instances of the derive(DbSerialize) expansion (an enum with payloads, a tuple struct):
+    // C21 arbitrary bytes never panic, C20 round trip + exact size.  These decide the generated code
+    // for THESE types only; the macro itself (all user types) is out of reach (C22 n/a).
+    #[kani::proof]
+    #[kani::unwind(20)]
+    #[kani::stub(core::panic::Location::caller, crate::verif_stubs::stub_caller)]
+    #[kani::stub(alloc::fmt::format, crate::verif_stubs::stub_format)]
+    fn c21_derived_enum_and_struct_no_panic() {
+        use crate::utilities::serialize::Serialize;
+        let a: [u8; 10] = kani::any();
+        let n: usize = kani::any();
+        kani::assume(n <= 10);
+        let _ = CountComparison::deserialize(&a[..n]);
+        let _ = crate::DbId::deserialize(&a[..n]);
+        let _ = QueryConditionLogic::deserialize(&a[..n]);
+        let _ = QueryConditionModifier::deserialize(&a[..n]);
+    }
+
+    #[kani::proof]
+    #[kani::unwind(20)]
+    #[kani::stub(core::panic::Location::caller, crate::verif_stubs::stub_caller)]
+    #[kani::stub(alloc::fmt::format, crate::verif_stubs::stub_format)]
+    fn c20_derived_enum_and_struct_roundtrip() {
+        use crate::utilities::serialize::Serialize;
+        let (c, _k, _v) = any_count();
+        let b = c.serialize();
+        assert!(b.len() as u64 == c.serialized_size());
+        assert!(CountComparison::deserialize(&b).unwrap() == c);
+        let id = crate::DbId(kani::any());
+        let b = id.serialize();
+        assert!(b.len() as u64 == id.serialized_size());
+        assert!(crate::DbId::deserialize(&b).unwrap() == id);
+    }
 }
